@@ -41,7 +41,7 @@ func AllOps() *Profile {
 	return &Profile{Name: "all-operators", MinRules: 1, MaxRules: 7, MaxDepth: 4, Alphabet: DefaultAlphabet,
 		WSeq: 5, WAlt: 5, WQuery: 2, WStar: 2, WPlus: 2, WAnd: 2, WNot: 2, WCapture: 2, WAction: 2, WPred: 2, WState: 1, WLeaf: 4,
 		AltMin: 2, AltMax: 5, NilAltPct: 15,
-		LLit: 6, LStr: 3, LCILit: 2, LRange: 3, LClass: 2, LNegClass: 2, LCIClass: 1, LDot: 2, LRef: 5}
+		LLit: 6, LStr: 3, LCILit: 2, LRange: 3, LClass: 2, LNegClass: 2, LCIClass: 2, LDot: 2, LRef: 5}
 }
 
 type gen struct {
@@ -125,6 +125,9 @@ func (g *gen) leaf() *Expr {
 		}
 		return &Expr{K: KClass, Items: []Item{it}}
 	case 4:
+		if g.r.Intn(5) == 0 {
+			return BridgingClass(g.r, []rune{'a', 'A', '0'}[g.r.Intn(3)])
+		}
 		n := 2 + g.r.Intn(4)
 		e := &Expr{K: KClass}
 		for i := 0; i < n; i++ {
@@ -140,7 +143,7 @@ func (g *gen) leaf() *Expr {
 		return e
 	case 6:
 		n := 1 + g.r.Intn(3)
-		e := &Expr{K: KClass, CI: true, Neg: g.r.Intn(5) == 0}
+		e := &Expr{K: KClass, CI: true, Neg: g.r.Intn(3) == 0}
 		for i := 0; i < n; i++ {
 			e.Items = append(e.Items, g.ciItem())
 		}
